@@ -77,6 +77,15 @@ def pairs(tier):
                 P.append(('att-index-only-%s-%d' % (i, sc), '%s edx, %s[%s*%d+{0}]' % (mn, sz, i, sc), False, '%s {0}(,%%%s,%d), %%edx' % (att, i, sc), True, None))
         P.append(('att-two-regs', '%s edx, %s[ebx+esi]' % (mn, sz), False, '%s (%%ebx,%%esi), %%edx' % att, True, None))
         P.append(('att-two-same', '%s edx, %s[ebx+ebx]' % (mn, sz), False, '%s (%%ebx,%%ebx), %%edx' % att, True, None))
+    # narrower operands: sign convention modulo 2^16 / 2^8, AT&T transliteration with the w / b suffix
+    for mn in ('mov', 'test'):
+        P += [
+            ('imm16-minus-' + mn, '%s ax, {0}' % mn, False, '%s ax, -{1}' % mn, False, 'neg16'),
+            ('imm16-minus-mem-' + mn, '%s WORD PTR [ebx+4], {0}' % mn, False, '%s WORD PTR [ebx+4], -{1}' % mn, False, 'neg16'),
+            ('imm8-minus-' + mn, '%s cl, {0}' % mn, False, '%s cl, -{1}' % mn, False, 'neg8'),
+            ('att-imm16-' + mn, '%s bx, {0}' % mn, False, '%sw ${0}, %%bx' % mn, True, None),
+            ('att-imm8-' + mn, '%s cl, {0}' % mn, False, '%sb ${0}, %%cl' % mn, True, None),
+        ]
     P += [
         ('st0', 'fadd st, st(1)', False, 'fadd st(0), st(1)', False, None),
         ('st0b', 'fxch st(1)', False, 'fxch st(1)', False, None),
@@ -108,6 +117,12 @@ def check_pair(p, res, tier):
             n1 = SInt.var('n1', 1, (1 << 32) - 1)
             eng.assume(z3.Extract(31, 0, n0.t + n1.t) == 0)
             eng.assume(n0.t != bvv(0))
+            syms = [n0, n1]
+        elif rel in ('neg16', 'neg8'):
+            # -n1 and n0 = 2^w - n1 are one value modulo the operand width; both fit the operand (n1 <= 2^(w-1))
+            w = 16 if rel == 'neg16' else 8
+            n1 = SInt.var('n1', 1, 1 << (w - 1))
+            eng.assume(n0.t == bvv(1 << w) - n1.t)
             syms = [n0, n1]
         elif rel == 'wrap':
             n1 = SInt.var('n1', 0, (1 << 35) - 1)
